@@ -15,7 +15,7 @@ Three harness families, all on the REAL `Builder.build` (parse + `House.resolve`
 
 Oracle (exactly the statement): the call returns (True or False) or raises ParseError /
 ResolveError / a ValueError coming out of the literal converters; anything else escaping, or the
-CPU-time limit expiring (0.5 s for a build that takes ~1 ms), is a violation.
+CPU-time limit expiring twice (0.25 s user time for a build that takes ~1 ms), is a violation.
 
 Nothing is genuinely symbolic here: script text is assembled from selector values and realised per
 path, the Builder then runs untraced on concrete text.  The solver's role is the proof that the
@@ -42,7 +42,7 @@ ASSUMPTIONS = [
     "token alphabets per verb = tokens of the verb's seed commands + a generic set (defined/undefined/wrong-kind "
     "names, absolute/relative/invalid paths, numbers, malformed hex, quoted string, reserved connectives, a "
     "comparison); listed in bounds",
-    "non-termination is detected by a limit of 0.5 s user-mode CPU time per build (ITIMER_VIRTUAL; a build takes "
+    "non-termination is detected by a limit of 0.25 s user-mode CPU time per build (ITIMER_VIRTUAL; a build takes "
     "about 1 ms), confirmed by repeating the interrupted build once under the same limit; "
     "the engine's wall-clock backstop (hang_s) stays armed behind it",
     "a ValueError is accepted only when it is raised inside one of building.Convert2* (the literal converters) or is "
@@ -53,7 +53,7 @@ ASSUMPTIONS = [
     "message formatting done before raising is inside",
 ]
 
-CPU_LIMIT = 0.5
+CPU_LIMIT = 0.25
 
 PRELUDE = """house h1
 init .sx with value 5
@@ -290,7 +290,7 @@ def obligations(tier):
         chunks, cur, size = [], [], 0
         for i, toks in enumerate(SEED_TOKENS[verb]):
             cost = (2 * len(toks) - 1) * len(alpha)
-            if cur and size + cost > (2500 if quick else 6000):
+            if cur and size + cost > (2500 if quick else 4000):
                 chunks.append(cur)
                 cur, size = [], 0
             cur.append(i)
@@ -299,7 +299,7 @@ def obligations(tier):
         for ci, chunk in enumerate(chunks):
             name = "mutate/" + verb + ("" if len(chunks) == 1 else "/%d" % ci)
             out.append(Ob(name, h_mutate, dict(verb=verb, alpha=alpha, seeds=chunk),
-                          budget=300 if quick else 600, per_path=60, hang_s=60, max_fail_keys=12,
+                          budget=300 if quick else 2400, per_path=60, hang_s=60, max_fail_keys=12,
                           bounds=dict(seeds=[SEEDS[verb][i] for i in chunk], alphabet=alpha,
                                       mutations="1 of replace/insert/delete/truncate at any position")))
     for verb in VERBS:
@@ -310,13 +310,13 @@ def obligations(tier):
             own = [t for t in alpha if t not in GENERIC][:11]
             k, a = 3, [""] + own + [t for t in CORE if t not in own]
         out.append(Ob("free/" + verb, h_free, dict(verb=verb, alpha=a, k=k),
-                      budget=300 if quick else 1500, per_path=60, hang_s=60, max_fail_keys=12,
+                      budget=300 if quick else 2400, per_path=60, hang_s=60, max_fail_keys=12,
                       bounds=dict(alphabet=a, tokens_after_verb="<= %d" % k)))
     n = 3 if quick else 4
     nopt = 1 + 3 * (n + 1)
     for o in range(nopt):
         out.append(Ob("relations/frames/first=%d" % o, h_frames, dict(n=n, first_opt=o),
-                      budget=400 if quick else 1500, per_path=60, hang_s=60, max_fail_keys=12,
+                      budget=400 if quick else 3600, per_path=60, hang_s=60, max_fail_keys=12,
                       bounds=dict(frames=n, relation_per_frame="none | in T | over T | under T",
                                   targets="every frame incl. itself + undefined")))
     out.append(Ob("relations/clones", h_clones, dict(m=1 if quick else 2),
